@@ -38,7 +38,8 @@ def build(c):
 	"""serialise one framing case; returns (stream, header-section names lower, announced lower, trailer names lower)"""
 	payload = bytes.fromhex(c['payload'])
 	kind = c['kind']
-	line = (b'POST /x HTTP/%s' if kind == 'server' else b'HTTP/%s 200 OK') % c['ver'].encode()
+	meth = c.get('method', 'POST').encode()
+	line = (meth + (b' h:80' if meth == b'CONNECT' else b' /x') + b' HTTP/%s' if kind == 'server' else b'HTTP/%s 200 OK') % c['ver'].encode()
 	fields = []
 	if kind == 'server':
 		fields.append(b'Host: h')
@@ -99,7 +100,7 @@ def build(c):
 
 def gen_cases(rng, tier):
 	cases = []
-	for kind in ('server', 'client', 'client-connect'):
+	for kind in ('server', 'client', 'client-connect', 'client-te'):
 		for ver in ('1.1', '1.0'):
 			for cl in CL_FORMS:
 				for te in TE_FORMS:
@@ -111,7 +112,19 @@ def gen_cases(rng, tier):
 							c = {'k': 'framing', 'kind': kind, 'ver': ver, 'cl': cl, 'te': te, 'tr_announce': ann, 'tr_fields': [list(t) for t in tf], 'payload': payload.hex()}
 							s = build(c)[0]
 							c['cuts'] = [[]] + ([sorted(set(rng.randrange(1, len(s)) for _ in range(3)))] if tier == 'thorough' or rng.random() < .3 else [])
+							if tf and te and te.lower() == 'chunked' and (tier == 'thorough' or payload):
+								# a trailer section: every way of cutting the stream in two, and one call per octet (the section must be seen whole)
+								# (quick tier: the cuts inside and just before the trailer section, for the plain chunked forms)
+								if tier == 'thorough':
+									c['cuts'] = [[], list(range(1, len(s)))] + streams.single_cuts(s, None)
+								elif cl is None and te == 'chunked':
+									c['cuts'] = [[], list(range(1, len(s)))] + [[p] for p in range(max(1, len(s) - 45), len(s))]
 							cases.append(c)
+							if kind == 'server' and payload and ann is None and not tf and (cl in (None, 'right', 'small') or tier == 'thorough'):
+								for meth in ('CONNECT', 'GET', 'HEAD', 'OPTIONS', 'TRACE', 'PUT', 'DELETE'):
+									c2 = dict(c, method=meth)
+									c2['cuts'] = [[]]
+									cases.append(c2)
 	# sequences on ONE machine: what a message announces (Trailer) or how it is framed must not carry over to the next message
 	def fm(te, cl, ann, tf, payload=b'abcde'):
 		return {'k': 'framing', 'ver': '1.1', 'cl': cl, 'te': te, 'tr_announce': ann, 'tr_fields': [list(t) for t in tf], 'payload': payload.hex()}
@@ -235,7 +248,7 @@ def oracle(c, o):
 			s, hnames, chunked_wire = build(c)
 			d, e, left = pc.summary(r)
 			# (a client machine answering a CONNECT request ignores the framing fields of a successful response: no trailer section is read)
-			if chunked_wire and c['tr_fields'] and r['calls'] and c['cl'] in (None, 'right', 'small') and c['kind'] != 'client-connect':
+			if chunked_wire and c['tr_fields'] and r['calls'] and c['cl'] in (None, 'right', 'small') and c['kind'] != 'client-connect' and c.get('method', 'POST') not in ('GET', 'HEAD', 'TRACE'):
 				announced = set()
 				if c['tr_announce']:
 					announced = set(x.strip().lower() for x in c['tr_announce'].split(','))
